@@ -307,6 +307,10 @@ func wantEmptyInterface(n *node) bool {
 
 func genValueOutput(n *node, t reflect.Type) func(*frame) reflect.Value {
 	value := genValue(n)
+	pos := 0
+	if n.anc.kind == returnStmt {
+		pos = childPos(n)
+	}
 	switch {
 	case n.anc.action == aAssign && n.anc.typ.cat == interfaceT:
 		if len(n.anc.typ.field) == 0 {
@@ -314,8 +318,9 @@ func genValueOutput(n *node, t reflect.Type) func(*frame) reflect.Value {
 			return value
 		}
 		fallthrough
-	case n.anc.kind == returnStmt && n.anc.val.(*node).typ.ret[0].cat == interfaceT:
-		if nod, ok := n.anc.val.(*node); !ok || len(nod.typ.ret[0].field) == 0 {
+	case n.anc.kind == returnStmt && n.level == 0 && n.findex == pos && n.anc.val.(*node).typ.ret[pos].cat == interfaceT:
+		// The operation stores directly at the frame location of a result of an interface type.
+		if nod, ok := n.anc.val.(*node); !ok || len(nod.typ.ret[pos].field) == 0 {
 			// empty interface, do not wrap
 			return value
 		}
